@@ -7,7 +7,7 @@ use proptest::prelude::*;
 /// must hit the same names again (clashes, delete-then-create).
 pub const NAME_POOL: &[&str] = &[
     "A", "B.TXT", "FOO.BAR", "LONGNAME.EXT", "X1", "DATA.BIN", "LOG", "N0.1", "Z~1.C", "R.D", "SUB", "DIR2", "DEEP",
-    "README.TXT", "A.B", "#$%&'().-@^", "_`{}~!.X", "M\u{e9}.\u{fc}", "12345678.123", "Q",
+    "README.TXT", "A.B", "#$%&'().-@^", "_`{}~!.X", "M\u{e9}.\u{fc}", "12345678.123", "Q", "\u{e5}NGSTR\u{f6}M.TXT",
 ];
 
 pub fn name11(s: &str) -> [u8; 11] {
